@@ -4,16 +4,21 @@ import z3
 from pyvc import vc, spec
 from pyvc.values import *   # noqa: F401,F403
 from pyvc.symcoll import WS
-from contracts import clib, container_transfer as CT, container_ops as CO
+from contracts import clib, container_transfer as CT, container_ops as CO, plate_ops as PO
 
 FUNCTIONS = {
-    'C01': ['Container._transfer', 'Container.transfer'],
-    'C02': ['Container._transfer', 'Unit.parse_quantity', 'Unit.convert_to_storage'],
+    'C01': ['Container._transfer', 'Container.transfer', 'Container._transfer_slice', 'PlateSlicer._transfer',
+            'Plate.transfer', 'Slicer.apply', 'Slicer.set', 'Slicer.get'],
+    'C02': ['Container._transfer', 'Unit.parse_quantity', 'Unit.convert_to_storage', 'Container._transfer_slice',
+            'PlateSlicer._transfer', 'Slicer.apply'],
     'C03': ['Container.__init__', 'Container._self_add', 'Container._add', 'Container._transfer', 'Container.remove',
             'Container.fill_to'],
     'C10': ['Container.__init__', 'Container._self_add', 'Container._add', 'Container._transfer', 'Container.remove',
             'Container.fill_to', 'Container.get_volume', 'Container.get_concentration'],
-    'C17': ['Container.remove'],
+    'C17': ['Container.remove', 'PlateSlicer.remove', 'Plate.remove', 'Slicer.apply'],
+    'C07': ['Slicer.apply', 'Slicer.set', 'Slicer.get', 'Container._transfer_slice', 'PlateSlicer._transfer',
+            'PlateSlicer.remove', 'PlateSlicer.fill_to', 'Plate.transfer', 'Plate.remove', 'Plate.fill_to',
+            'Container.transfer', 'Plate.__getitem__'],
     'C11': ['Container.fill_to', 'Container._add', 'Container._self_add'],
 }
 
@@ -36,6 +41,10 @@ def tasks(tier, pid):
             if pid == 'C11' and o == 'add' and c[2] != 'pos':
                 continue
             t.append(('op', o, c))
+    if pid in ('C01', 'C02', 'C07', 'C04'):
+        t += [('plate_transfer',) + c for c in PO.transfer_cases(tier)]
+    if pid in ('C07', 'C17', 'C04'):
+        t += [('plate_unary',) + c for c in PO.unary_cases(tier)]
     t.append(('canaries',))
     return t
 
@@ -45,6 +54,10 @@ def run(pid, kind, *args):
         return CT.run_case(pid, *args)
     if kind == 'op':
         return CO.run(args[0], pid, args[1])
+    if kind == 'plate_transfer':
+        return PO.run_transfer(pid, *args)
+    if kind == 'plate_unary':
+        return PO.run_unary(pid, *args)
     if kind == 'canaries':
         return canaries(pid)
     raise ValueError(kind)
@@ -81,7 +94,7 @@ def canaries(pid):
         for I, out in vc.explore(body, contracts=ctr):
             res += [dict(r, name=f'{pid}/' + r['name']) for r in vc.discharge(I, 'Container._transfer/', 'canary', 10000)
                     if r['kind'].startswith('canary')]
-    if pid in ('C17', 'C11'):
+    if pid in ('C17', 'C11', 'C07'):
         def body2(I):
             clib.assume_world(I)
             C = clib.mk_container(I, 'C', 'inf', keys, [True])
